@@ -141,79 +141,13 @@ def _case(rng):
     gens = int(rng.integers(1, 4))
     out = []
     cur = parents
+    f0 = _objective(shape, [], mx)
     for _g in range(gens):
         calls.clear()
-        captured = {}
-        cross = eng._crossover
-        orig_cross = type(cross).__call__
-
-        def cc(population, mutated, probability, _c=cross, _o=orig_cross):
-            res = _o(_c, population, mutated, probability)
-            captured["trial"] = res
-            captured["prob"] = [float(probability)] * population.size if np.ndim(probability) == 0 else [float(t) for t in np.asarray(probability).reshape(-1)]
-            return res
-
-        eng._crossover = cc
-        params = {}
-        if which == 2:
-            og = eng._get_params
-
-            def gp(_og=og):
-                cr, f, p = _og()
-                params["cr"], params["f"], params["p"] = cr.tolist(), f.tolist(), p.tolist()
-                return cr, f, p
-
-            eng._get_params = gp
-            arch0 = [] if eng._archive is None else [tuple(float(t) for t in g) for g in eng._archive.genomes]
-            had_archive = eng._archive is not None
-        try:
-            with Rec() as rec:
-                new = eng.run(cur)
-        finally:
-            eng._crossover = cross
-            if which == 2:
-                eng._get_params = og
-        P = inds_pairs(cur)
-        N = inds_pairs(new)
-        tp = captured["trial"]
-        T = [(tuple(float(t) for t in g), float(f)) for g, f in zip(tp.genomes, tp.fitnesses)]
-        Q = list(calls)
-        n_ = len(P)
-        # ---- the draws
-        if which < 2:
-            triples = [c[2] for c in rec.choice if c[1] == 3 and not c[3]][:n_]
-            fs = [F] * n_ if which == 0 else [float(t) for t in rec.uniform[0]]
-            picks = f"{n_} " + " ".join(f"{t[0]} {t[1]} {t[2]} {fr(f)}" for t, f in zip(triples, fs))
-        else:
-            singles = [c for c in rec.choice if c[1] is None]
-            triples = [c[2] for c in rec.choice if c[1] == 3 and not c[3]]
-            if n_ < 4:
-                pbs, t1, t2 = [0] * n_, [[1 % n_ if n_ > 1 else 0] * 3] * n_, [[1 % n_ if n_ > 1 else 0] * 3] * n_
-                # no mutation for populations below four: the picks are not used, any admissible filler does
-                pbs = [int(np.argmin([(-f if mx else f) for _, f in P]))] * n_
-                t1 = [[(i + 1) % n_] * 3 for i in range(n_)]
-                t2 = t1
-            else:
-                pbs = [int(c[2]) for c in singles[:n_]]
-                t1 = triples[:n_]
-                t2 = triples[n_ : 2 * n_ + len(arch0)][:n_] if had_archive else t1
-            picks = f"{n_} " + " ".join(f"{pb} {fr(p)} {a[0]} {b[1]} {fr(f)}" for pb, p, a, b, f in zip(pbs, params["p"], t1, t2, params["f"]))
-        chosen = rec.rand[-1]
-        jrand = rec.randint[-1]
-        crs = captured["prob"]
-        m = 1 if mx else 0
-        vals = f"{len(Q)} " + " ".join(fit(v) for _, v in Q)
-        if which < 2:
-            line = f"degen {m} f64 {_box_tok(box)} {inds_tok(P)} {picks} {_rows_tok(chosen)} {jrand} {len(crs)} {' '.join(fr(c) for c in crs)} {vals}"
-            expect = f"{inds_tok(T)} | {inds_tok(Q)} | {inds_tok(N)}"
-            extra = None
-        else:
-            line = f"shadegen {m} f64 {_box_tok(box)} {inds_tok(P)} {_rows_tok(arch0)} {picks} {_rows_tok(chosen)} {jrand} {len(crs)} {' '.join(fr(c) for c in crs)} {vals}"
-            expect = f"{inds_tok(T)} | {inds_tok(Q)} | {inds_tok(N)}"
-            extra = [tuple(float(t) for t in g) for g in eng._archive.genomes] if eng._archive is not None else []
+        new, line, expect, extra, info = traced_de_generation(eng, which, cur, box, mx, calls=calls, F=F if which == 0 else None)
+        P, T, Q, N, n_ = info["P"], info["T"], info["Q"], info["N"], info["n"]
         # ---- the properties, stated on the real output
         viol = []
-        f0 = _objective(shape, [], mx)
         for i, ((tg, tf), (pg, pf)) in enumerate(zip(T, P)):
             if any(not (lo <= x <= hi) for x, (lo, hi) in zip(tg, box)):
                 viol.append(("C01/trial-outside-box", f"{name}: trial row {i} = {list(tg)} lies outside the box {box}"))
@@ -221,7 +155,7 @@ def _case(rng):
                 v = f0(np.array(tg))
                 if not (tf == v or (tf != tf and v != v)):
                     viol.append(("C02/stored-fitness-wrong/engine-trial", f"{name}: trial row {i} differs from its parent and carries fitness {tf!r}, the objective gives {v!r} at {list(tg)}"))
-        changed = sum(1 for (tg, _), (pg, _) in zip(T, P) if tg != pg)
+        changed = info["changed"]
         if len(Q) != changed:
             viol.append(("C03/engine-calls-vs-changed-rows", f"{name}: {changed} trial rows differ from their parents but the objective was invoked {len(Q)} times"))
         if len(N) != n_:
@@ -236,6 +170,103 @@ def _case(rng):
         out.append((line, expect, {"engine": name, "layout": layout, "nontrivial": nontrivial, "extra": extra, "changed": changed, "n": n_}, viol))
         cur = new
     return out
+
+
+def traced_de_generation(eng, which, cur, box, mx, calls=None, F=None, kw=None):
+    """run ONE real generation `eng.run(cur)` of a DE (which = 0 plain, 1 dither) or SHADE (2) engine under the
+    recorder; returns (new individuals, driver line, expected answer, SHADE archive after the run or None, info).
+    calls: the list the objective appends (genome, value) to — None inside whole traced runs, where the values
+    of the evaluated rows are read from the trial population (what the deme's problem returned)"""
+    captured = {}
+    cross = eng._crossover
+    orig_cross = type(cross).__call__
+
+    def cc(population, mutated, probability, _c=cross, _o=orig_cross):
+        res = _o(_c, population, mutated, probability)
+        captured["trial"] = res
+        captured["prob"] = [float(probability)] * population.size if np.ndim(probability) == 0 else [float(t) for t in np.asarray(probability).reshape(-1)]
+        return res
+
+    eng._crossover = cc
+    params = {}
+    arch0, had_archive, og = [], False, None
+    if which == 2:
+        og = eng._get_params
+
+        def gp(_og=og):
+            cr, f, p = _og()
+            params["cr"], params["f"], params["p"] = cr.tolist(), f.tolist(), p.tolist()
+            return cr, f, p
+
+        eng._get_params = gp
+        arch0 = [] if eng._archive is None else [tuple(float(t) for t in g) for g in eng._archive.genomes]
+        had_archive = eng._archive is not None
+    try:
+        with Rec() as rec:
+            new = eng.run(cur, **(kw or {}))
+    finally:
+        eng._crossover = cross
+        if which == 2:
+            eng._get_params = og
+    P = inds_pairs(cur)
+    N = inds_pairs(new)
+    tp = captured["trial"]
+    T = [(tuple(float(t) for t in g), float(f)) for g, f in zip(tp.genomes, tp.fitnesses)]
+    Q = list(calls) if calls is not None else [t for t, p_ in zip(T, P) if t[0] != p_[0]]
+    n_ = len(P)
+    if which < 2:
+        triples = [c[2] for c in rec.choice if c[1] == 3 and not c[3]][:n_]
+        if F is None and which == 0:
+            F = float(eng._mutation.f)
+        fs = [F] * n_ if which == 0 else [float(t) for t in rec.uniform[0]]
+        picks = f"{n_} " + " ".join(f"{t[0]} {t[1]} {t[2]} {fr(f)}" for t, f in zip(triples, fs))
+    else:
+        singles = [c for c in rec.choice if c[1] is None]
+        triples = [c[2] for c in rec.choice if c[1] == 3 and not c[3]]
+        if n_ < 4:
+            # no mutation for populations below four: the picks are not used, any admissible filler does
+            pbs = [int(np.argmin([(-f if mx else f) for _, f in P]))] * n_
+            t1 = [[(i + 1) % n_] * 3 for i in range(n_)]
+            t2 = t1
+        else:
+            pbs = [int(c[2]) for c in singles[:n_]]
+            t1 = triples[:n_]
+            t2 = triples[n_ : 2 * n_ + len(arch0)][:n_] if had_archive else t1
+        picks = f"{n_} " + " ".join(f"{pb} {fr(p)} {a[0]} {b[1]} {fr(f)}" for pb, p, a, b, f in zip(pbs, params["p"], t1, t2, params["f"]))
+    chosen = rec.rand[-1]
+    jrand = rec.randint[-1]
+    crs = captured["prob"]
+    m = 1 if mx else 0
+    vals = f"{len(Q)} " + " ".join(fit(v) for _, v in Q)
+    expect = f"{inds_tok(T)} | {inds_tok(Q)} | {inds_tok(N)}"
+    if which < 2:
+        line = f"degen {m} f64 {_box_tok(box)} {inds_tok(P)} {picks} {_rows_tok(chosen)} {jrand} {len(crs)} {' '.join(fr(c) for c in crs)} {vals}"
+        extra = None
+    else:
+        line = f"shadegen {m} f64 {_box_tok(box)} {inds_tok(P)} {_rows_tok(arch0)} {picks} {_rows_tok(chosen)} {jrand} {len(crs)} {' '.join(fr(c) for c in crs)} {vals}"
+        extra = [tuple(float(t) for t in g) for g in eng._archive.genomes] if eng._archive is not None else []
+    changed = sum(1 for (tg, _), (pg, _) in zip(T, P) if tg != pg)
+    return new, line, expect, extra, {"P": P, "T": T, "Q": Q, "N": N, "n": n_, "changed": changed}
+
+
+def shade_archive_ok(model_answer, real_archive):
+    """the model's archive (before trimming) must contain the real one as a sub-multiset; equal when not trimmed"""
+    parts = model_answer.split(" | ")
+    toks = parts[3].split() if len(parts) > 3 else ["0"]
+    rows, k = [], 1
+    for _ in range(int(toks[0])):
+        ln = int(toks[k])
+        rows.append(tuple(toks[k + 1 : k + 1 + ln]))
+        k += 1 + ln
+    real = [tuple(fr(x) for x in r) for r in real_archive]
+    pool = list(rows)
+    ok = True
+    for r in real:
+        if r in pool:
+            pool.remove(r)
+        else:
+            ok = False
+    return ok and not (len(real) != len(rows) and len(real) >= len(rows)), rows, real
 
 
 def slice_engine(ctx, rng, n_cases, only=None):
@@ -271,22 +302,8 @@ def slice_engine(ctx, rng, n_cases, only=None):
             if head != e:
                 sl.disagreements.append({"op": line[:6000], "impl": e[:3000], "model": g[:3000]})
                 continue
-            # archive: the model's (before trimming) must contain the real one as a sub-multiset; equal when not trimmed
-            toks = parts[3].split() if len(parts) > 3 else ["0"]
-            rows, k = [], 1
-            for _ in range(int(toks[0])):
-                ln = int(toks[k])
-                rows.append(tuple(toks[k + 1 : k + 1 + ln]))
-                k += 1 + ln
-            real = [tuple(fr(x) for x in r) for r in meta["extra"]]
-            pool = list(rows)
-            ok = True
-            for r in real:
-                if r in pool:
-                    pool.remove(r)
-                else:
-                    ok = False
-            if not ok or (len(real) != len(rows) and len(real) >= len(rows)):
+            ok, rows, real = shade_archive_ok(g, meta["extra"])
+            if not ok:
                 sl.disagreements.append({"op": line[:6000], "impl": f"archive {real[:4]}", "model": f"archive {rows[:4]}"})
         elif g != e:
             sl.disagreements.append({"op": line[:6000], "impl": e[:3000], "model": g[:3000]})
